@@ -94,3 +94,144 @@ Theorem C20_supertriangle_contains : forall vs : list (V2 ROps),
   forall v, In v vs -> left_of p0 p2 v /\ left_of p2 p1 v /\ left_of p1 p0 v.
 Proof. exact supertriangle_contains. Qed.
 Print Assumptions C20_supertriangle_contains.
+
+(* ---- bookkeeping of the incremental algorithm (render/delaunay.go Delaunay2d), for every number
+   system `O : Ops` and all inputs: no size bound, nothing assumed about the circumcircle test.
+   The model functions scan / tag_outer / add_vertex / strip are the ones executed bit-exactly
+   against the Go code in the correspondence runs. *)
+From Coq Require Import Bool.
+From Sdfx Require Import Algo.DelaunayBook.
+Open Scope Z_scope.   (* Reals left R_scope on top *)
+
+(* "copy the tail element over slot j and shrink": slot j is dropped, the rest is kept *)
+Theorem C20_swap_remove_exact : forall (A : Type) (d : A) (l : list A) (j : nat), (j < length l)%nat ->
+  Permutation l (nth j l d :: swap_remove d l j) /\ length (swap_remove d l j) = (length l - 1)%nat.
+Proof. exact @swap_remove_spec. Qed.
+Print Assumptions C20_swap_remove_exact.
+
+(* final removal of the triangles touching the super triangle: with any fuel >= the length (the
+   model uses S (length ts)) the result is, as a multiset, exactly the triangles with all three
+   indices < n *)
+Theorem C20_strip_exact : forall (n : Z) (fuel : nat) (ts : list tri), (length ts <= fuel)%nat ->
+  Permutation (strip fuel n ts 0) (filter (inner_tri n) ts) /\ Forall (all_below n) (strip fuel n ts 0).
+Proof. exact strip_exact. Qed.
+Print Assumptions C20_strip_exact.
+
+(* the same from any loop state j: entries before j have been examined already *)
+Theorem C20_strip_from : forall (n : Z) (fuel : nat) (ts : list tri) (j : nat),
+  (j <= length ts)%nat -> (length ts - j <= fuel)%nat -> Forall (all_below n) (firstn j ts) ->
+  Permutation (strip fuel n ts j) (filter (inner_tri n) ts) /\ Forall (all_below n) (strip fuel n ts j).
+Proof. exact strip_from. Qed.
+Print Assumptions C20_strip_from.
+
+Theorem C20_inner_tri_iff : forall n t, inner_tri n t = true <-> all_below n t.
+Proof. exact inner_tri_iff. Qed.
+Print Assumptions C20_inner_tri_iff.
+
+(* cavity search for one vertex v: the list splits into kept and removed triangles;
+   (a) nothing is lost or invented, (b) the edge buffer is the edges of the removed triangles in
+   removal order, (c) removed = not done and inside, (d) kept = done before (unchanged) or not
+   inside with the new done flag, (e) the loop ends because j reaches the end, not on fuel *)
+Theorem C20_scan_partition : forall (O : Ops) (vs : list (V2 O)) (v : V2 O) (ts : list (tri * bool)),
+  exists kept removed,
+    scan (S (length ts)) vs v ts 0 [] = (kept, flat_map edges3 removed) /\
+    Permutation (flat_map (keepf vs v) ts) kept /\
+    Permutation (flat_map (remf vs v) ts) removed /\
+    Permutation (map fst ts) (map fst kept ++ removed) /\
+    (forall t, In t removed -> In (t, false) ts /\ fst (icc vs v t) = true) /\
+    (forall k, In k kept ->
+       (snd k = true /\ In k ts) \/
+       (In (fst k, false) ts /\ fst (icc vs v (fst k)) = false /\ snd k = snd (icc vs v (fst k)))) /\
+    (forall fuel, (S (length ts) <= fuel)%nat ->
+       scan fuel vs v ts 0 [] = scan (S (length ts)) vs v ts 0 []).
+Proof. exact @scan_partition. Qed.
+Print Assumptions C20_scan_partition.
+
+Theorem C20_scan_fuel : forall (O : Ops) (vs : list (V2 O)) (v : V2 O) fuel1 fuel2 ts j es,
+  (length ts - j <= fuel1)%nat -> (length ts - j <= fuel2)%nat ->
+  scan fuel1 vs v ts j es = scan fuel2 vs v ts j es.
+Proof. exact @scan_fuel. Qed.
+Print Assumptions C20_scan_fuel.
+
+(* duplicate-edge tagging.  cnt e es = number of entries that are the same undirected edge as e.
+   If no undirected edge occurs three or more times, every entry whose edge occurs once stays in
+   place and every other entry becomes (-1,-1).  (Entries that already are (-1,-1) are allowed.) *)
+Theorem C20_edge_tag_general : forall es : list edge,
+  (forall e, In e es -> e <> tag -> (cnt e es <= 2)%nat) ->
+  tag_outer es 0 (length es) = map (once_or_tag es) es.
+Proof. exact tag_outer_spec. Qed.
+Print Assumptions C20_edge_tag_general.
+
+Theorem C20_edge_tag_boundary : forall es : list edge,
+  Forall (fun e => nonneg_edge e = true) es ->
+  (forall e, In e es -> (cnt e es <= 2)%nat) ->
+  tag_outer es 0 (length es) = map (once_or_tag es) es /\
+  filter nonneg_edge (tag_outer es 0 (length es)) = filter (fun e => Nat.eqb (cnt e es) 1) es.
+Proof. exact tag_outer_boundary. Qed.
+Print Assumptions C20_edge_tag_boundary.
+
+(* the hypothesis is needed: of three copies of an edge the third survives *)
+Example C20_edge_tag_triple :
+  tag_outer [(0, 1); (1, 0); (0, 1); (1, 2)] 0 4 = [tag; tag; (0, 1); (1, 2)] /\
+  cnt (0, 1) [(0, 1); (1, 0); (0, 1); (1, 2)] = 3%nat.
+Proof. exact tag_outer_triple. Qed.
+
+(* tagging never invents an edge (no hypothesis) *)
+Theorem C20_edge_tag_only_tags : forall n es j, tagged_from es (tag_outer es j n).
+Proof. exact tagged_outer. Qed.
+Print Assumptions C20_edge_tag_only_tags.
+
+(* one insertion step *)
+Theorem C20_add_vertex_shape : forall (O : Ops) (vs : list (V2 O)) (i : Z) (ts : list (tri * bool)),
+  let v := vnth vs i in
+  exists kept removed,
+    let es := flat_map edges3 removed in
+    scan (S (length ts)) vs v ts 0 [] = (kept, es) /\
+    Permutation (map fst ts) (map fst kept ++ removed) /\
+    (forall t, In t removed -> In (t, false) ts /\ fst (icc vs v t) = true) /\
+    (forall k, In k kept ->
+       (snd k = true /\ In k ts) \/
+       (In (fst k, false) ts /\ fst (icc vs v (fst k)) = false /\ snd k = snd (icc vs v (fst k)))) /\
+    (exists bnd,
+       add_vertex vs i ts = kept ++ map (new_tri i) bnd /\
+       bnd = filter nonneg_edge (tag_outer es 0 (length es)) /\
+       (forall e, In e bnd -> nonneg_edge e = true /\ exists t, In t removed /\ In e (edges3 t)) /\
+       length (add_vertex vs i ts) = (length ts - length removed + length bnd)%nat) /\
+    (Forall tri_nonneg (map fst ts) -> (forall e, In e es -> (cnt e es <= 2)%nat) ->
+       add_vertex vs i ts = kept ++ map (new_tri i) (filter (once es) es) /\
+       length (add_vertex vs i ts) = (length ts - length removed + length (filter (once es) es))%nat).
+Proof. exact @add_vertex_shape. Qed.
+Print Assumptions C20_add_vertex_shape.
+
+Theorem C20_add_vertex_third_index : forall (O : Ops) (vs : list (V2 O)) i ts k,
+  In k (add_vertex vs i ts) ->
+  (exists dn, In (fst k, dn) ts) \/ (exists e0 e1, k = ((e0, e1, i), false) /\ 0 <= e0 /\ 0 <= e1).
+Proof. exact @add_vertex_third_index. Qed.
+Print Assumptions C20_add_vertex_third_index.
+
+(* whole run: the result is the stripped final working list and every index returned is a valid
+   index into the input point list *)
+Theorem C20_delaunay2d_indices_in_range : forall (O : Ops) (vs : list (V2 O)),
+  let n := Z.of_nat (length vs) in
+  let '(p0, p1, p2) := super_triangle vs in
+  let ts := add_vertices (vs ++ [p0; p1; p2]) (length vs) 0 [((n, n + 1, n + 2), false)] in
+  Permutation (delaunay2d vs) (filter (inner_tri n) (map fst ts)) /\
+  Forall (fun t => let '(a, b, c) := t in 0 <= a < n /\ 0 <= b < n /\ 0 <= c < n) (delaunay2d vs).
+Proof. exact @delaunay2d_strip. Qed.
+Print Assumptions C20_delaunay2d_indices_in_range.
+
+(* non-vacuity on exact rationals: five points, insertion of vertex 4 (one triangle already done and
+   skipped, one becomes done, two removed; their shared edge is tagged, four triangles appended) *)
+Example C20_book_example :
+  @scan Num.QInst.QOps (S (length BookExample.t4)) BookExample.vs (vnth BookExample.vs 4) BookExample.t4 0 []
+    = (BookExample.kept, flat_map edges3 BookExample.removed) /\
+  BookExample.removed = [(6, 7, 3); (7, 2, 3)] /\
+  forallb (fun e => Nat.leb (cnt e BookExample.es) 2) BookExample.es = true /\
+  @add_vertex Num.QInst.QOps BookExample.vs 4 BookExample.t4
+    = BookExample.kept ++ map (new_tri 4) [(6, 7); (3, 6); (7, 2); (2, 3)] /\
+  @delaunay2d Num.QInst.QOps BookExample.pts = [(2, 3, 4); (2, 1, 3); (0, 1, 2)].
+Proof.
+  split; [exact (proj1 BookExample.scan_vertex4)|]. split; [reflexivity|].
+  split; [exact (proj1 BookExample.add_vertex4)|].
+  split; [exact (proj1 (proj2 (proj2 BookExample.add_vertex4)))|exact BookExample.delaunay2d_value].
+Qed.
